@@ -45,8 +45,10 @@ def cases(tier, seed):
         if kind == "smc_flowprec":
             sub = (k % 2 == 0) if tier == "quick" else (k % 2 == 0)
         out.append({"kind": kind, "seed": [seed, 20, k], "k": k, "subprocess": bool(sub)})
+    for j in range({"quick": 1, "thorough": 4}[tier]):
+        out.append({"kind": "x64_session", "seed": [seed, 201, j], "k": 10**6 + j, "subprocess": True})
     # group by kind so that a worker reuses its jit caches across the cases of its chunk
-    out.sort(key=lambda c: (KINDS.index(c["kind"]), c["k"]))
+    out.sort(key=lambda c: (KINDS.index(c["kind"]) if c["kind"] in KINDS else -1, c["k"]))
     return out
 
 
@@ -265,11 +267,74 @@ def run_pair_member(spec, which, in_subprocess):
     return json.loads(lines[-1][len("C20RESULT ") :])
 
 
+X64_SCRIPT = r"""
+import os, sys, json, hashlib
+os.environ.pop("JAX_ENABLE_X64", None)
+os.environ["JAX_PLATFORMS"] = "cpu"
+os.environ["TQDM_DISABLE"] = "1"
+sys.path.insert(0, sys.argv[1])
+import warnings, logging
+warnings.filterwarnings("ignore")
+import numpy as np
+import jax, jax.numpy as jnp
+from aspire import Aspire
+from aspire.samples import Samples
+logging.getLogger("aspire").setLevel(logging.ERROR)
+seed = int(sys.argv[2])
+g = np.random.default_rng(seed)
+xtrain = g.normal(0.3, 0.8, (120, 2)).astype(np.float32)
+def ll(s): return -0.5 * jnp.sum((s.x - 0.2) ** 2, axis=-1)
+def lp(s): return jnp.where(jnp.all(jnp.abs(s.x) < 6, axis=-1), 0.0, -jnp.inf)
+def run32():
+    a = Aspire(log_likelihood=ll, log_prior=lp, dims=2, parameters=["a", "b"], prior_bounds={"a": [-6, 6], "b": [-6, 6]}, flow_backend="flowjax", xp=jnp,
+               dtype="float32", key=jax.random.key(seed), flow_layers=2, nn_width=8)
+    h = a.fit(Samples(jnp.asarray(xtrain), xp=jnp, parameters=["a", "b"]), max_epochs=2, batch_size=40, show_progress=False)
+    s = a.sample_posterior(24, sampler="importance")
+    m = hashlib.sha256()
+    for v in (s.x, s.log_q, s.log_w, np.asarray([float(t) for t in h.training_loss])):
+        m.update(np.ascontiguousarray(np.asarray(v)).tobytes())
+    return m.hexdigest(), str(np.asarray(s.x).dtype)
+first = run32()
+between = "built"
+try:
+    b = Aspire(log_likelihood=ll, log_prior=lp, dims=2, parameters=["a", "b"], prior_bounds={"a": [-6, 6], "b": [-6, 6]}, flow_backend="flowjax", xp=jnp,
+               dtype="float64", key=jax.random.key(seed + 1), flow_layers=2, nn_width=8)
+    b.init_flow()
+except Exception as exc:
+    between = "raised " + type(exc).__name__
+second = run32()
+print("X64RESULT " + json.dumps({"first": first, "second": second, "between": between, "x64_after": bool(jax.config.jax_enable_x64)}))
+"""
+
+
+def x64_case(case, counters, viol):
+    """A session that has not switched on 64-bit JAX types: the same float32 flowjax run before and after a float64 flow was
+    built in the same interpreter. (Every other case of this check runs with 64-bit types on, as the repository's tests do.)"""
+    from .. import env
+
+    env_ = {k: v for k, v in os.environ.items() if k != "JAX_ENABLE_X64"}
+    env_["PYTHONPATH"] = os.path.join(env.REPO, "src")
+    p = subprocess.run([sys.executable, "-W", "ignore", "-c", X64_SCRIPT, os.path.join(env.REPO, "src"), str(int(case["seed"][-1]) + 11)], capture_output=True, text=True, env=env_, timeout=900)
+    lines = [ln for ln in p.stdout.splitlines() if ln.startswith("X64RESULT ")]
+    if p.returncode != 0 or not lines:
+        raise RuntimeError(f"x64-off session failed rc={p.returncode}: {p.stderr[-800:]}")
+    r = json.loads(lines[-1][len("X64RESULT ") :])
+    counters["pairs"] += 1
+    counters["pairs_across_processes"] += 1
+    counters["sessions_without_64bit_jax_types"] += 1
+    if r["first"] != r["second"]:
+        viol.append({"mech": "C20/identically-seeded-runs-differ/after-another-flow-was-built-in-the-session", "detail": f"float32 flowjax run (key and inputs fixed) repeated after a float64 flowjax flow was built in the same interpreter ({r['between']}): outputs differ; 64-bit types switched on meanwhile: {r['x64_after']}"})
+    return r
+
+
 def run_case(case):
     from collections import Counter
 
     counters = Counter({k: 0 for k in REQUIRED_COUNTERS})
     viol = []
+    if case["kind"] == "x64_session":
+        r = x64_case(case, counters, viol)
+        return {"viol": viol, "counters": dict(counters), "nontrivial": [f"x64_session|{case['seed'][-1]}"], "sample": {"spec": case, "info": r}}
     spec = {"kind": case["kind"], "seed": case["seed"]}
     r0 = run_pair_member(spec, 0, False)
     r1 = run_pair_member(spec, 1, case["subprocess"])
